@@ -37,6 +37,7 @@ type EntryCfg struct {
 	Harness  string            `json:"harness"`
 	Files    []string          `json:"files"`
 	Redirect map[string]string `json:"redirect"`
+	Generator string           `json:"generator"`
 }
 
 type PropCfg struct {
@@ -49,7 +50,7 @@ type PropCfg struct {
 	Outside     []string   `json:"outside"`
 	ExtraNoop   []string   `json:"extra_noop"`
 	Redirect    map[string]string `json:"redirect"` // callee (fn.String()) -> harness function serving the call
-	Generator   string            `json:"generator"` // "c18": a harness file generated from the current tree's types
+	Generator   string            `json:"generator"` // "c18"/"c12": a harness file generated from the current tree's types
 	ClassActs   []string   `json:"class_actions"` // action kinds that distinguish finding classes (default: all)
 	SolverMode  string     `json:"solver_mode"` // "fresh": non-incremental queries (arithmetic kernels)
 }
@@ -220,8 +221,11 @@ func checkMain(args []string) int {
 		if ec.Redirect != nil {
 			epc.Redirect = ec.Redirect
 		}
+		if ec.Generator != "" {
+			epc.Generator = ec.Generator
+		}
 		ehdir := filepath.Join(verif, epc.Harness)
-		key := epc.Pkg + "|" + epc.Harness + "|" + strings.Join(epc.Files, ",")
+		key := epc.Pkg + "|" + epc.Harness + "|" + strings.Join(epc.Files, ",") + "|" + epc.Generator
 		if l, ok := loadCache[key]; ok {
 			return l, epc, ehdir
 		}
@@ -241,6 +245,15 @@ func checkMain(args []string) int {
 			}
 			fmt.Fprintf(os.Stderr, "[%s] generated %d obligations from the types of the current tree\n", id, n)
 			overlay[filepath.Join(repo, epc.Pkg, "zz_verif_c18gen.go")] = src
+		}
+		if epc.Generator == "c12" {
+			src, n, gerr := genC12(repo)
+			if gerr != nil {
+				l.err = gerr
+				return l, epc, ehdir
+			}
+			fmt.Fprintf(os.Stderr, "[%s] generated the namespace-bearing table for %d event types from the types of the current tree\n", id, n)
+			overlay[filepath.Join(repo, epc.Pkg, "zz_verif_c12gen.go")] = src
 		}
 		l.prog, l.pkg, l.err = load(repo, epc.Pkg, overlay)
 		if l.err == nil {
@@ -275,10 +288,10 @@ func checkMain(args []string) int {
 			inconclusive = append(inconclusive, "entry not found: "+ec.Name)
 			continue
 		}
-		e := newEngine(prog, pkg, []string{"z3", "-in"})
+		e := newEngine(prog, pkg, []string{"z3", "-in", "-t:120000"})
 		e.stopOnViol = 1000000
 		if tier == "thorough" {
-			e.solver2Bin = []string{"z3-new", "-in"}
+			e.solver2Bin = []string{"z3-new", "-in", "-t:120000"}
 		}
 		e.extraNoop = epc.ExtraNoop
 		e.redirect = epc.Redirect
@@ -312,6 +325,14 @@ func checkMain(args []string) int {
 			to = "10m"
 		}
 		d, _ := time.ParseDuration(to)
+		// wall budgets only guard against hangs; the registered bounds finish well inside them on an idle
+		// 16-core machine. A floor keeps a loaded machine from turning a pass into INCONCLUSIVE.
+		if floor := 20 * time.Minute; tier != "thorough" && d < floor {
+			d = floor
+		}
+		if floor := 90 * time.Minute; tier == "thorough" && d < floor {
+			d = floor
+		}
 		e.deadline = time.Now().Add(d)
 		for k, v := range params {
 			e.params[k] = v
@@ -663,6 +684,15 @@ func nativeRun(verif, repo string, pc PropCfg, hdir, entry, replayPath string) (
 		gp := filepath.Join(tmp, "c18gen_test.go")
 		os.WriteFile(gp, src, 0o644)
 		repl[filepath.Join(pkgDir, "zz_verif_c18gen_test.go")] = gp
+	}
+	if pc.Generator == "c12" {
+		src, _, gerr := genC12(repo)
+		if gerr != nil {
+			return "", gerr.Error()
+		}
+		gp := filepath.Join(tmp, "c12gen_test.go")
+		os.WriteFile(gp, src, 0o644)
+		repl[filepath.Join(pkgDir, "zz_verif_c12gen_test.go")] = gp
 	}
 	rt, err := os.ReadFile(filepath.Join(filepath.Dir(hdir), "rt", "rt_native.go.txt"))
 	if err != nil {
